@@ -20,7 +20,9 @@ CLAIMS = {
             "string; Props/C08Batch (command-line loop, Model/Batch.lean): reports independent of the other inputs, exit status 1 iff some "
             "input failed wherever it stands, good inputs' outputs complete and failed ones absent; Props/C08Loc: an error raised while executing a "
             "statement is located at a token of THAT statement (eval, addStmt, addStmts, up to processFile: the parser never builds the one tree "
-            "shape for which the register would be stale; the line lies between the neighbouring semicolons). Correspondence/oracle: every function x parameter x 15 value types + boundary values "
+            "shape for which the register would be stale; the line lies between the neighbouring semicolons); Props/C08Pos: every reported "
+            "position is a byte of a line of the file (or, for a parse error at end of input, the last line one column past its end), and only "
+            "I/O failures lack a position. Correspondence/oracle: every function x parameter x 15 value types + boundary values "
             "in-process, method sequences, reference shapes, source fuzz incl. invalid UTF-8, batches, nesting probes; fail-safe contract "
             "(exit status, diagnostic position, output removal) judged on the real binary. Native stack exhaustion is outside the model "
             "(known finding K04).", "7 C08", "Lean proof (no-panic theorems per layer, per-function over the regenerated table) + panic census on the real code (partial: native stack)"),
